@@ -2318,10 +2318,11 @@ class SourceCatalog:
             warnings.simplefilter('ignore', RuntimeWarning)
             covar_det = np.linalg.det(covar)
 
-            # covariance should be positive semidefinite
-            idx = np.where(covar_det < 0)[0]
-            covar[idx] = np.array([[np.nan, np.nan], [np.nan, np.nan]])
-
+            # The moment data are non-negative, so the covariance
+            # is positive semidefinite. A negative determinant can
+            # arise only from floating-point rounding for collinear
+            # pixels (exact determinant of zero); such sources are
+            # "infinitely" thin and are handled by the loop below.
             idx = np.where(covar_det < delta2)[0]
             while idx.size > 0:
                 covar[idx, 0, 0] += delta
